@@ -48,6 +48,8 @@ package composer
 
 //@ func (*VersionRange).Contains
 //@   requires wfRange(pr)
+//@   loop 1 invariant forall g int :: 0 <= g && g <= rangeindex ==> (exists i int :: 0 <= i && i < len(pr.constraintGroups[g]) && !pr.constraintGroups[g][i].matches(version))
+//@   ensures or-of-and: result == (exists g int :: 0 <= g && g < len(pr.constraintGroups) && (forall i int :: 0 <= i && i < len(pr.constraintGroups[g]) ==> pr.constraintGroups[g][i].matches(version)))   [C02 C20]
 
 // ---- stored text (C18)
 
